@@ -20,10 +20,7 @@ pub fn sequence_value(input: Input<'_>) -> ParserResult<'_, ASN1Value> {
             // a component name in front of the value, or the value alone: the value is tried once
             // in either case (a nested value is not parsed again for the second alternative)
             skip_ws_and_comments(alt((
-                pair(
-                    map(value_reference, Some),
-                    skip_ws_and_comments(asn1_value),
-                ),
+                pair(map(value_reference, Some), skip_ws_and_comments(asn1_value)),
                 map(skip_ws_and_comments(asn1_value), |v| (None, v)),
             ))),
         )),
@@ -59,16 +56,23 @@ pub fn sequence(input: Input<'_>) -> ParserResult<'_, ASN1Type> {
                         skip_ws_and_comments(sequence_component),
                         optional_comma,
                     )),
-                    opt(terminated(extension_marker, opt(skip_ws_and_comments(char(COMMA))))),
-                    opt(many0(terminated(
-                        skip_ws_and_comments(alt((extension_group, sequence_component))),
-                        optional_comma,
-                    ))),
+                    // extension additions are looked for behind an extension marker only: what
+                    // the root component list could not parse is not parsed a second time
+                    opt(pair(
+                        terminated(extension_marker, opt(skip_ws_and_comments(char(COMMA)))),
+                        many0(terminated(
+                            skip_ws_and_comments(alt((extension_group, sequence_component))),
+                            optional_comma,
+                        )),
+                    )),
                 )),
                 opt(constraints),
             ),
         ),
-        |m| ASN1Type::Sequence(m.into()),
+        |((root, extension), constraints)| {
+            let (marker, additions) = extension.unzip();
+            ASN1Type::Sequence(((root, marker, additions), constraints).into())
+        },
     )
     .parse(input)
 }
